@@ -1052,6 +1052,7 @@ func c09R2Kill(c *Ctx, R2 string, f *ssa.Function, mem *types.Named, K ssa.Instr
 		excused.Edges(ne...)
 	}
 	// digest unchanged: old.Digest == new.Digest
+	differs := newCut() // edges on which old.Digest != new.Digest is known
 	if newVal != nil && len(oldVals) > 0 {
 		for _, i := range Ifs(f) {
 			cond, t, fe := ifEdges(i)
@@ -1062,8 +1063,10 @@ func c09R2Kill(c *Ctx, R2 string, f *ssa.Function, mem *types.Named, K ssa.Instr
 			if (old.fieldOf(bo.X, "Digest") && nw.fieldOf(bo.Y, "Digest")) || (old.fieldOf(bo.Y, "Digest") && nw.fieldOf(bo.X, "Digest")) {
 				if bo.Op == token.EQL {
 					excused.Edges(t)
+					differs.Edges(fe)
 				} else {
 					excused.Edges(fe)
+					differs.Edges(t)
 				}
 			}
 		}
@@ -1154,6 +1157,21 @@ func c09R2Kill(c *Ctx, R2 string, f *ssa.Function, mem *types.Named, K ssa.Instr
 		} else {
 			bad := c09PathThrough(K, newCut().Instr(adds...))
 			c.Check(R2, k2, K.Pos(), !bad, ifelse(!bad, "every path through index[k] = v adds k to tags[v.Digest]", "a path through index[k] = v returns without adding k to tags[v.Digest]"))
+		}
+		// (c) the new inverse entry survives: once k is in tags[v.Digest], k is removed from tags[old.Digest] only
+		// where the two digests are known to differ (re-applying a tag must not drop it)
+		if len(adds) > 0 && len(dels) > 0 {
+			k3 := fmt.Sprintf("%s|%s:inverse-survives", fname, what)
+			bad := false
+			for _, a := range adds {
+				for _, d := range dels {
+					if reach(a.Block(), instrIndex(a)+1, d, differs) {
+						bad = true
+					}
+				}
+			}
+			c.Check(R2, k3, K.Pos(), !bad, ifelse(!bad, "the removal of k from tags[old.Digest] precedes the insertion into tags[v.Digest] or is guarded by old.Digest != v.Digest",
+				"after k was added to tags[v.Digest] it is removed from tags[old.Digest] without old.Digest != v.Digest being known: re-applying a tag the descriptor already carries empties its tag set, isTagged turns false and auto-GC deletes a tagged manifest"))
 		}
 	}
 }
